@@ -5,6 +5,7 @@ import (
 	"fmt"
 	"sort"
 	"strings"
+	"sync"
 
 	"github.com/sourcenetwork/immutable"
 	"pgregory.net/rapid"
@@ -164,7 +165,7 @@ func drawSchemaCase(t *rapid.T) SchemaCase {
 		va.Groups = make([]int, len(comps))
 		va.Reps = 1
 		if v == 0 {
-			va.Reps = rapid.IntRange(2, 4).Draw(t, "reps0")
+			va.Reps = rapid.IntRange(2, 3).Draw(t, "reps0")
 			c.Variants = append(c.Variants, va)
 			continue
 		}
@@ -507,6 +508,8 @@ func (r variantResult) accepted() bool {
 	return true
 }
 
+var closers sync.WaitGroup
+
 func runVariant(c SchemaCase, v Variant, keep bool) variantResult {
 	n := hx.MustMemNode()
 	res := variantResult{types: map[string]TypeIDs{}}
@@ -549,7 +552,12 @@ func runVariant(c SchemaCase, v Variant, keep bool) variantResult {
 	if keep {
 		res.node = n
 	} else {
-		n.Close()
+		// closing takes ~15 ms of mostly waiting: overlap it with the next variant
+		closers.Add(1)
+		go func() {
+			defer closers.Done()
+			n.Close()
+		}()
 	}
 	return res
 }
@@ -605,6 +613,7 @@ func runSchema(c SchemaCase) (out schemaOutcome) {
 	if len(c.Types) == 0 || len(c.Variants) == 0 {
 		return out
 	}
+	defer closers.Wait()
 	fail := func(f *hx.Failure) { out.failures = append(out.failures, f) }
 
 	var base variantResult
